@@ -24,15 +24,227 @@ def src(rel):
     p = os.path.join(REPO, rel)
     try:
         with open(p, encoding="utf-8") as f:
-            return f.read()
+            t = f.read()
     except OSError as e:
         raise FactError("cannot read %s: %s" % (rel, e))
+    # locals / closure parameters that were merely renamed are read under the names recorded for the pinned tree
+    # (gen/localnames.py; a no-op on the pinned tree itself)
+    import localnames
+    return localnames.restore(rel, t, _segments)
 
 
-def strip_comments(s):
-    s = re.sub(r"/\*.*?\*/", " ", s, flags=re.S)
-    s = re.sub(r"//[^\n]*", "", s)
-    return s
+def _segments(t):
+    """split Rust text into ('code' | 'comment' | 'string', text) pieces (strings: "..", r#".."#, b"..", char literals)"""
+    out, cur = [], []
+    i, n = 0, len(t)
+
+    def flush():
+        if cur:
+            out.append(("code", "".join(cur)))
+            del cur[:]
+    while i < n:
+        c = t[i]
+        if t.startswith("//", i):
+            j = t.find("\n", i)
+            j = n if j < 0 else j
+            flush()
+            out.append(("comment", t[i:j]))
+            i = j
+        elif t.startswith("/*", i):
+            depth, j = 1, i + 2
+            while j < n and depth:
+                if t.startswith("/*", j):
+                    depth, j = depth + 1, j + 2
+                elif t.startswith("*/", j):
+                    depth, j = depth - 1, j + 2
+                else:
+                    j += 1
+            flush()
+            out.append(("comment", t[i:j]))
+            i = j
+        elif c == '"' or (c in "rb" and re.match(r'(?:b?r#*"|b")', t[i:i + 6]) and (i == 0 or not (t[i - 1].isalnum() or t[i - 1] == "_"))):
+            m = re.match(r'b?r(#*)"', t[i:])
+            if m:
+                end = '"' + m.group(1)
+                j = t.find(end, i + len(m.group(0)))
+                j = n if j < 0 else j + len(end)
+            else:
+                j = i + (2 if c == "b" else 1)
+                while j < n and t[j] != '"':
+                    j += 2 if t[j] == "\\" else 1
+                j += 1
+            flush()
+            out.append(("string", t[i:j]))
+            i = j
+        elif c == "'":
+            m = re.match(r"'(?:\\(?:u\{[0-9a-fA-F]+\}|x[0-9a-fA-F]{2}|.)|[^\\'])'", t[i:])
+            if m:
+                flush()
+                out.append(("string", m.group(0)))
+                i += len(m.group(0))
+            else:
+                cur.append(c)
+                i += 1
+        else:
+            cur.append(c)
+            i += 1
+    flush()
+    return out
+
+
+def _close(t, i):
+    """index just after the parenthesis matching the `(` at t[i]; -1 if none (t: code with literals already masked)"""
+    d = 0
+    for k in range(i, len(t)):
+        if t[k] == "(":
+            d += 1
+        elif t[k] == ")":
+            d -= 1
+            if d == 0:
+                return k + 1
+    return -1
+
+
+def canon(s):
+    """spellings that mean the same are brought to one form, so that extractors written for the form rustfmt + the authors
+    use today do not react to a harmless rewrite:  `Err(e)?;` as a statement -> `return Err(e);`,  `x.len() == 0` ->
+    `x.is_empty()`,  `x.len() != 0` / `x.len() > 0` -> `!x.is_empty()`,  a method chain broken over lines is joined"""
+    # literals are masked while rewriting (their content is put back afterwards)
+    lits = []
+
+    def mask(m):
+        lits.append(m)
+        return "\x00%d\x00" % (len(lits) - 1)
+    parts = []
+    for kind, seg in _segments(s):
+        parts.append(mask(seg) if kind == "string" else seg)
+    t = "".join(parts)
+    t = re.sub(r"([)\]?}\w])[ \t]*\n[ \t]*\.(?=[A-Za-z_]\w*)", r"\1.", t)
+    path = r"[A-Za-z_][\w]*(?:(?:\.|::)[A-Za-z_]\w*|\[[^\[\]\n]*\]|\(\))*"
+    t = re.sub(r"(?<![\w.!])(" + path + r")\.len\(\) == 0\b", r"\1.is_empty()", t)
+    t = re.sub(r"(?<![\w.!])(" + path + r")\.len\(\) (?:!= 0|> 0)\b", r"!\1.is_empty()", t)
+    # a comparison with a literal / constant on the left is turned round (`0 > left` -> `left < 0`)
+    const = r"(?:\d[\d_]*(?:[ui](?:8|16|32|64|size))?|(?:[A-Za-z_]\w*::)*[A-Z][A-Z0-9_]{2,}(?: as [a-z_0-9]+)?)"
+    flip = {"<": ">", ">": "<", "<=": ">=", ">=": "<="}
+
+    def turn(m):
+        rhs = m.group(4)
+        if re.fullmatch(const, rhs.strip()) or "<" in rhs or ">" in rhs or "=" in rhs:
+            return m.group(0)
+        return "%s%s %s %s" % (m.group(1), rhs.strip(), flip[m.group(3)], m.group(2))
+    t = re.sub(r"((?:\bif |\bwhile |&& |\|\| |[(!]))(" + const + r") (<=|>=|<|>) ((?:[^;{}&|\n(),]|\((?:[^()\n]|\([^()\n]*\))*\))+?)(?= \{| &&| \|\||\)|,)", turn, t)
+    # `if !(c) { A } else { B }` / `if !c { A } else { B }` (plain else block) -> `if c { B } else { A }`
+    def brace_end(i):
+        d = 0
+        for k in range(i, len(t)):
+            if t[k] == "{":
+                d += 1
+            elif t[k] == "}":
+                d -= 1
+                if d == 0:
+                    return k + 1
+        return -1
+    changed = True
+    while changed:
+        changed = False
+        for m in re.finditer(r"\bif !(\((?:[^(){}\n]|\([^(){}\n]*\))*\)|[A-Za-z_][\w.]*(?:\([^(){}\n]*\))?(?:\.[a-z_]+\([^(){}\n]*\))*) (?=\{)", t):
+            if re.search(r"else\s*$", t[:m.start()]):
+                continue
+            b1 = m.end()
+            e1 = brace_end(b1)
+            m2 = re.match(r"\s*else\s*(?=\{)", t[e1:]) if e1 > 0 else None
+            if not m2:
+                continue
+            b2 = e1 + m2.end()
+            e2 = brace_end(b2)
+            if e2 < 0:
+                continue
+            cond = m.group(1)
+            if cond.startswith("(") and cond.endswith(")"):
+                cond = cond[1:-1]
+            t = t[:m.start()] + "if " + cond + " " + t[b2:e2] + " else " + t[b1:e1] + t[e2:]
+            changed = True
+            break
+    out, pos = [], 0
+    for m in re.finditer(r"(?<![\w.:])Err\(", t):
+        if m.start() < pos:
+            continue
+        e = _close(t, m.end() - 1)
+        if e > 0 and t[e:e + 2] == "?;" and re.search(r"(?:^|[;{}])\s*$", t[:m.start()]):
+            out.append(t[pos:m.start()] + "return " + t[m.start():e] + ";")
+            pos = e + 2
+    out.append(t[pos:])
+    t = "".join(out)
+    return re.sub(r"\x00(\d+)\x00", lambda m: lits[int(m.group(1))], t)
+
+
+def strip_comments(s, canonical=True):
+    """comments removed (never inside string / char literals), equivalent spellings canonicalised (see canon; not with
+    canonical=False, for facts that pin the text of a whole function body).
+    A block comment leaves no gap behind an opening bracket, a comma or white space, and a single space elsewhere."""
+    out = []
+    segs = _segments(s)
+    for k, (kind, seg) in enumerate(segs):
+        if kind != "comment":
+            out.append(seg)
+        elif seg.startswith("/*"):
+            prev = "".join(out)[-1:] if out else ""
+            if prev in "([{,!&*" or prev.isspace() or prev == "":
+                if k + 1 < len(segs) and segs[k + 1][0] == "code":
+                    segs[k + 1] = ("code", segs[k + 1][1].lstrip(" \t"))
+            else:
+                out.append(" ")
+    return canon("".join(out)) if canonical else "".join(out)
+
+
+def _binders(body):
+    """names bound inside a function body: let / let mut (incl. tuple patterns), closure parameters, for-loop and
+    if-let / match-arm variables are NOT included (only plain lets and closures: what a maintainer renames freely)"""
+    names = []
+    for m in re.finditer(r"\blet\s+(?:mut\s+)?(\(([^()]*)\)|[a-z_][a-z_0-9]*)", body):
+        for n in re.findall(r"[a-z_][a-z_0-9]*", m.group(2) if m.group(2) is not None else m.group(1)):
+            if n not in ("mut", "_") and n not in names:
+                names.append(n)
+    for m in re.finditer(r"\|((?:\s*&?(?:mut\s+)?\(?[a-z_][a-z_0-9]*\)?\s*,?)+)\|", body):
+        for n in re.findall(r"[a-z_][a-z_0-9]*", m.group(1)):
+            if n not in ("mut", "_") and n not in names:
+                names.append(n)
+    return names
+
+
+def same_shape(body, expected):
+    """`expected` is white-space-free text; true iff the body (comments stripped, spellings canonicalised, white space removed)
+    equals it up to a consistent renaming of the body's local names (a pinned function body does not pin how its locals are called)"""
+    text = strip_comments(body)
+    if re.sub(r"\s+", "", text) == expected:
+        return True
+    names = _binders(text)
+    if not names:
+        return False
+    seen, pat = {}, []
+    for kind, seg in _segments(text):
+        if kind != "code":
+            pat.append(re.escape(re.sub(r"\s+", "", seg)) if kind == "comment" else re.escape(seg))
+            continue
+        for tok in re.findall(r"[A-Za-z_][A-Za-z_0-9]*|\s+|.", seg, flags=re.S):
+            if tok.isspace():
+                continue
+            if tok in names:
+                # not a field / method / path segment of the same spelling
+                prev = pat[-1] if pat else ""
+                if prev.endswith("\\.") and not prev.endswith("\\.\\."):
+                    pat.append(re.escape(tok))
+                elif tok in seen:
+                    pat.append("(?P=%s)" % seen[tok])
+                else:
+                    seen[tok] = "v%d" % len(seen)
+                    pat.append("(?P<%s>[A-Za-z_][A-Za-z_0-9]*)" % seen[tok])
+            else:
+                pat.append(re.escape(tok))
+    try:
+        return re.fullmatch("".join(pat), expected) is not None
+    except re.error:
+        return False
 
 
 def fn_body(text, name, rel="?"):
@@ -193,6 +405,11 @@ def main(args):
             repo = args.pop(0)
         elif a == "--out":
             out = args.pop(0)
+        elif a == "--record-locals":
+            import localnames
+            n = localnames.record(repo or REPO, _segments)
+            print("recorded the local names of %d functions in %s" % (n, localnames.RECORD))
+            return 0
         else:
             names.append(a)
     r = run(names or None, repo, out)
@@ -203,6 +420,9 @@ def main(args):
         else:
             bad += 1
             print("FAIL %s: %s" % (n, why))
+    import localnames
+    for note in sorted(set(localnames.NOTES)):
+        sys.stderr.write("note %s\n" % note)
     return 1 if bad else 0
 
 
